@@ -51,6 +51,12 @@ REWRITE_GROUPS["indexmap"] = {
                   "use verif_models::vmap::IndexMap;", 1)],
 }
 
+REWRITE_GROUPS["loader_maps"] = {
+    "crates": ["graphql-loader"],
+    "rewrites": [("crates/graphql-loader/src/tasks.rs", "use std::{\n    collections::HashMap,\n    path::{Path, PathBuf},\n};",
+                  "use std::path::{Path, PathBuf};\nuse verif_models::vmap::HashMap;", 1)],
+}
+
 SW = "crates/sourcemap-writer/src/"
 
 PROPS = {}
@@ -68,6 +74,9 @@ PROPS["C06"] = {
     "harnesses": [
         H("vlq_roundtrip_full", "sourcemap-writer", SW + "base64_vlq/mod.rs", "sourcemap_writer/vlq_h.rs", "verif_vlq",
           ["base64_vlq::base64_vlq"], "n: every isize (64 bit); loop unwound 15 > 13 digits, unwinding assertion on",
+          timeout=300, mem_gb=6),
+        H("vlq_no_panic_full_range", "sourcemap-writer", SW + "base64_vlq/mod.rs", "sourcemap_writer/vlq_h.rs", "verif_vlq",
+          ["base64_vlq::base64_vlq"], "n: every isize; no panic/overflow/out-of-bounds (Kani built-in checks), 1..=13 digits",
           timeout=300, mem_gb=6),
         H("mapping_delta_k2", "sourcemap-writer", SW + "source_writer/mapping_writer.rs", "sourcemap_writer/mapping_h.rs", "verif_mapping",
           ["MappingWriter::new", "MappingWriter::add_entry", "MappingWriter::into_buffer"],
@@ -155,7 +164,67 @@ for _pid, _pre in (("C03", "c03_typecompat_sound"), ("C04", "c04_typecompat_comp
         ],
     }
 
+PR = "crates/printer/src/"
+SINK_NOTE = ("String used as a write-only output buffer is replaced by the sink model (kv/models/src/sink.rs): String::push / push_str / "
+             "str::repeat(1-byte pattern) append to a fixed array that the oracle reads; contract: bytes appended, in order")
+PROPS["C16"] = {
+    "rewrite_groups": [],
+    "models_for": ["printer"],
+    "assumptions": [
+        SINK_NOTE,
+        "alloc::fmt::format is stubbed to return the text `\\u{1}` and the only control character in the input alphabet is U+0001 (the one value for which that is what format! produces)",
+        "input alphabets: see bounds; strings are valid UTF-8 built with char::encode_utf8",
+        "Kani/CBMC/cadical are sound; rustc MIR is the semantics of the source",
+    ],
+    "outside": "every GraphQLPrinter impl in ast.rs/base.rs/schema.rs (types, fields, arguments, directives, dropped variable defaults), remove_builtins, plugin transforms, re-parsing with nitrogql's own parser",
+    "harnesses": [
+        H("print_string_single_line_n2", "nitrogql-printer", PR + "graphql_printer/utils.rs", "printer/print_string_h.rs", "verif_print_string",
+          ["graphql_printer::utils::print_string"], "strings of 0..2 chars from {\", \\, a, CR, U+0001, e-acute, U+1F600, /} (no LF: single-line path)",
+          timeout=900, mem_gb=10),
+    ],
+}
+
+PROPS["C09"] = {
+    "rewrite_groups": [],
+    "assumptions": ["types are well-formed GraphQL types (no `T!!`)",
+                    "the map_name callback is the harness's (returns a marker type); Box targets of the input type live in a typed arena built by the harness",
+                    "Kani/CBMC/cadical are sound; rustc MIR is the semantics of the source"],
+    "outside": "get_type_for_variable_definitions (optional/undefined handling, ts_intersection), the __OperationInput namespace declarations (schema_type_printer print_type impls write text), ScalarTypeConfig::get_type, variable default values, text printing",
+    "harnesses": [
+        H("c09_ts_of_type_s0", "nitrogql-printer", PR + "ts_types/type_to_ts_type.rs", "printer/ts_of_type_h.rs", "verif_ts_of_type",
+          ["ts_types::type_to_ts_type::get_ts_type_of_type", "get_ts_type_of_type_impl"],
+          "well-formed wrapper nestings #0-4 (depth <= 2: T, [T], T!, [[T]], [T!]) of the 19 nestings of depth <= 4, chosen by a symbolic selector", timeout=900, mem_gb=10),
+        H("c09_ts_of_type_s1", "nitrogql-printer", PR + "ts_types/type_to_ts_type.rs", "printer/ts_of_type_h.rs", "verif_ts_of_type",
+          ["ts_types::type_to_ts_type::get_ts_type_of_type", "get_ts_type_of_type_impl"],
+          "well-formed wrapper nestings #5-9 (depth 2-3) of the 19 nestings of depth <= 4, chosen by a symbolic selector", timeout=900, mem_gb=10),
+        H("c09_ts_of_type_s2", "nitrogql-printer", PR + "ts_types/type_to_ts_type.rs", "printer/ts_of_type_h.rs", "verif_ts_of_type",
+          ["ts_types::type_to_ts_type::get_ts_type_of_type", "get_ts_type_of_type_impl"],
+          "well-formed wrapper nestings #10-14 (depth 3-4) of the 19 nestings of depth <= 4, chosen by a symbolic selector", timeout=900, mem_gb=10, tiers=("thorough",)),
+        H("c09_ts_of_type_s3", "nitrogql-printer", PR + "ts_types/type_to_ts_type.rs", "printer/ts_of_type_h.rs", "verif_ts_of_type",
+          ["ts_types::type_to_ts_type::get_ts_type_of_type", "get_ts_type_of_type_impl"],
+          "well-formed wrapper nestings #15-18 (depth 4) of the 19 nestings of depth <= 4, chosen by a symbolic selector", timeout=900, mem_gb=10, tiers=("thorough",)),
+    ],
+}
+UNCLAIMED_C16 = PROPS.pop("C16")  # measured: std str search (find/split/lines -> CharSearcher/memchr) does not fit; see DESIGN appendix
+
+PROPS["C19"] = {
+    "rewrite_groups": ["loader_maps"],
+    "assumptions": ["std::collections::HashMap in graphql-loader/src/tasks.rs is replaced by the Vec-backed model kv/models/src/vmap.rs (finite function K -> V; validated natively against std HashMap on >60000 scripts)",
+                    "tasks are created with Task::new on an empty path; register_file (parser, import resolution) is never executed",
+                    "Kani/CBMC/cadical are sound; rustc MIR is the semantics of the source"],
+    "outside": "loader.rs (parse, import resolution, get_required_files, emit_js), main.rs ABI wrappers / thread-locals / RESULT buffer, the manual ownership of source buffers in register_file + Drop for Task, the TypeScript side; equality of emitted modules between fresh and long-lived tasks",
+    "harnesses": [
+        H("tasks_history_n3", "graphql-loader", "crates/graphql-loader/src/tasks.rs", "loader/tasks_h.rs", "verif_tasks",
+          ["Tasks::new", "Tasks::add_task", "Tasks::get_task", "Tasks::get_task_mut", "Tasks::remove_task", "Task::new"],
+          "every history of 3 calls, each symbolically add/get/get_mut/remove with a symbolic id in 0..=6 (live, freed and never-issued ids)", timeout=900, mem_gb=12),
+    ],
+}
+
 # C11: every harness written for it ran out of memory or time (see DESIGN.md appendix): the merge_*
 # functions and ExtensionList are iterator-adaptor chains over heap structs with String keys, which
 # CBMC cannot convert within 40 GB even at 1-element bounds. Kept for the record, not claimed.
 UNCLAIMED = {"C11": PROPS.pop("C11")}
+# C09 / C19: harnesses written, measured, do not fit (DESIGN.md appendix); kept for the record.
+UNCLAIMED["C09"] = PROPS.pop("C09")
+UNCLAIMED["C19"] = PROPS.pop("C19")
+UNCLAIMED["C16"] = UNCLAIMED_C16
